@@ -127,6 +127,11 @@ pub fn scenario(g: &mut G, ctx: &RunCtx) -> RunReport {
             eprintln!("DEBUG original  around {}: {:?}", at, String::from_utf8_lossy(&d.plan.wire.bytes[lo..(at + 24).min(d.plan.wire.bytes.len())]));
         }
     }
+    // drawn after everything else, so that the recorded tapes of earlier findings keep their meaning
+    // (an exhausted tape draws 0 = the uncoded family)
+    if g.chance(1, 6) {
+        return coded_scenario(g, ctx);
+    }
     let ran = bodyx::run(&d.plan, ctx, false);
     let mut stats = Stats::default();
     stats.absorb(&ran.history);
@@ -142,6 +147,146 @@ pub fn scenario(g: &mut G, ctx: &RunCtx) -> RunReport {
         stats,
         sched_tape: ran.sched_tape,
         describe: if ctx.describe { d.plan.describe() } else { String::new() },
+    }
+}
+
+/// The same damage applied to a response whose body is gzip- or deflate-coded: the statement makes no
+/// exception for coded bodies.  The frame carries the coded octets Z of a payload P; the caller reads P.
+/// Nothing that is not a prefix of P may be handed out, and the body may be reported finished only when the
+/// *frame* was complete (close-delimited: when all of Z arrived) - a decoder that has seen the end of its
+/// stream says nothing about the framing around it.
+fn coded_scenario(g: &mut G, ctx: &RunCtx) -> RunReport {
+    use std::io::Write;
+    g.probe("coded-body");
+    let len = g.size(if ctx.thorough { 100_000 } else { 30_000 });
+    let payload = g.payload(len);
+    let gzip = g.chance(1, 2);
+    let level = flate2::Compression::new(g.below(10) as u32);
+    let (label, z): (&str, Vec<u8>) = if gzip {
+        let mut e = flate2::write::GzEncoder::new(Vec::new(), level);
+        e.write_all(&payload).unwrap();
+        (*g.pick(&["gzip", "GZIP", "x-other, gzip"]), e.finish().unwrap())
+    } else {
+        let mut e = flate2::write::DeflateEncoder::new(Vec::new(), level);
+        e.write_all(&payload).unwrap();
+        (*g.pick(&["deflate", "Deflate"]), e.finish().unwrap())
+    };
+    let mut plan = bodyx::plan_from_payload(g, z.clone(), vec![("Content-Encoding".to_string(), label.as_bytes().to_vec())]);
+    plan.read_mode = match g.below(5) {
+        0 => ReadMode::Bytes,
+        1 => ReadMode::WriteTo,
+        _ => {
+            let (v, n) = gen::read_sizes(g);
+            ReadMode::Sizes(v, n)
+        }
+    };
+    plan.rereads = g.below(4) as usize;
+    let mut d = damage_plan(g, plan);
+    d.plan.damage = format!("coded({}):{}", if gzip { "gzip" } else { "deflate" }, d.plan.damage);
+    let ran = bodyx::run(&d.plan, ctx, false);
+    let mut stats = Stats::default();
+    stats.absorb(&ran.history);
+    let verdict = match &ran.observed {
+        None => violation("hang", format!("run torn down: deadlock={} event_cap={}", ran.history.deadlock, ran.history.event_cap)),
+        Some(Err(p)) => violation(format!("panic:{}", panic_site(p)), p.clone()),
+        Some(Ok(o)) => coded_oracle(&d, o, &payload, &z, if gzip { "gzip" } else { "deflate" }),
+    };
+    RunReport {
+        verdict,
+        shape: format!("coded/{}/{}", if gzip { "gzip" } else { "deflate" }, d.plan.shape()),
+        nontrivial: true,
+        stats,
+        sched_tape: ran.sched_tape,
+        describe: if ctx.describe { format!("coded body ({} -> {} octets) {}", payload.len(), z.len(), d.plan.describe()) } else { String::new() },
+    }
+}
+
+fn coded_oracle(d: &Damaged, o: &Observed, payload: &[u8], z: &[u8], coding: &str) -> Verdict {
+    let plan = &d.plan;
+    let head_len = plan.wire.head_len;
+    let delivered = &d.delivered;
+    if delivered.len() < head_len {
+        return match &o.send_err {
+            Some(_) => Verdict::Pass,
+            None => violation("truncated-head-accepted", format!("send() succeeded although only {} of {} head bytes arrived", delivered.len(), head_len)),
+        };
+    }
+    if o.send_err.is_some() || d.damage == Damage::Corrupt {
+        // a corrupted framing octet changes the coded octets in ways only the decoder can judge; panics and
+        // hangs are still caught by the caller of this function
+        return Verdict::Pass;
+    }
+    let r = ref_decode(plan.framing, plan.declared_len, &delivered[head_len..]);
+    if r.end == RefEnd::DontCare {
+        return Verdict::Pass;
+    }
+    let all_z = is_prefix(z, &r.max_output);
+    let complete_ok = match d.damage {
+        Damage::Gap => true,
+        Damage::CutFin if plan.framing == Framing::Close => all_z,
+        _ => r.end == RefEnd::Complete,
+    };
+    let tag = format!("coded-{}:{:?}:{:?}", coding, plan.framing, d.damage);
+    match &plan.read_mode {
+        ReadMode::Sizes(..) => {
+            let mut handed = 0usize;
+            let mut first_terminal_seen = false;
+            let mut had_error = false;
+            for (i, c) in o.calls.iter().enumerate() {
+                match &c.res {
+                    Ok(n) => {
+                        handed += n;
+                        if !is_prefix(&o.output[..handed], payload) {
+                            return violation(
+                                format!("{}:{}", if had_error { "prefix-violated-after-error" } else { "prefix-violated" }, tag),
+                                format!("call {} (size {}) handed out bytes that are not a prefix of the decoded payload (offset {})", i, c.size, handed - n),
+                            );
+                        }
+                        if *n == 0 && c.size > 0 && !complete_ok && (!first_terminal_seen || (had_error && plan.framing != Framing::Close)) {
+                            return violation(
+                                format!("incomplete-reported-complete{}:{}", if had_error { "-after-error" } else { "" }, tag),
+                                format!(
+                                    "call {} returned Ok(0) (end of body) after {} of {} decoded bytes although the framing around the coded stream is incomplete (reference: {:?}; {} of {} coded octets arrived)",
+                                    i,
+                                    handed,
+                                    payload.len(),
+                                    r.end,
+                                    r.max_output.len().min(z.len()),
+                                    z.len()
+                                ),
+                            );
+                        }
+                        if *n == 0 && c.size > 0 && !first_terminal_seen {
+                            first_terminal_seen = true;
+                            if handed != payload.len() {
+                                return violation(format!("short-body-reported-complete:{}", tag), format!("read returned Ok(0) after {} of {} decoded bytes", handed, payload.len()));
+                            }
+                        }
+                    }
+                    Err(k) if k == "Io(Interrupted)" => {}
+                    Err(_) => {
+                        first_terminal_seen = true;
+                        had_error = true;
+                    }
+                }
+            }
+            Verdict::Pass
+        }
+        _ => {
+            let c = &o.calls[0];
+            if plan.read_mode_is_write_to() && !is_prefix(&o.output, payload) {
+                return violation(format!("prefix-violated:{}", tag), format!("write_to wrote bytes that are not a prefix of the decoded payload ({} bytes)", o.output.len()));
+            }
+            match &c.res {
+                Err(_) => Verdict::Pass,
+                Ok(_) if !complete_ok => violation(
+                    format!("incomplete-reported-complete:{}", tag),
+                    format!("{} returned Ok although the framing around the coded stream is incomplete (reference: {:?}; {} of {} coded octets arrived)", c.what, r.end, r.max_output.len().min(z.len()), z.len()),
+                ),
+                Ok(_) if o.output != payload => violation(format!("output-mismatch:{}", tag), format!("{} returned {} bytes, the decoded payload has {}", c.what, o.output.len(), payload.len())),
+                Ok(_) => Verdict::Pass,
+            }
+        }
     }
 }
 
